@@ -70,6 +70,7 @@ interactive=False, runinit=False; for main() INIT_FILENAME is blanked and HOME p
 import io
 import json
 import os
+import re
 import shlex
 import shutil
 import sys
@@ -334,9 +335,10 @@ def cheap_events(seed):
     evs += [
         ('error', '.' + m['unkcmd'], 'unknown-command', None, False),
         ('error', '.boxed true', 'unknown-command', None, False),
-        ('error', '.select account, number, currency where currency = \'EUR\'', 'dot-statement', 5, False),
-        ('error', '.print', 'dot-statement', None, False),
-        ('error', '.balances', 'dot-statement', None, False),
+        ('error', '.select account, number, currency where currency = \'EUR\'', 'dot-statement',
+         ('select', "select account, number, currency where currency = 'EUR'"), False),
+        ('error', '.print', 'dot-statement', ('print', 'PRINT'), False),
+        ('error', '.balances', 'dot-statement', ('balances', 'BALANCES'), False),
         ('error', m['unkcmd'] + ' bar', 'unknown-word', None, False),
         ('error', 'boxed true', 'unknown-word', None, False),
         ('error', '.run ' + m['unknown'], 'run-unknown', None, False),
@@ -366,6 +368,7 @@ def costly_events(seed):
 # -- the product (real shell, model) ----------------------------------------------------------------------
 
 _MISSING = object()
+_ADDRESS = re.compile(r'0x[0-9a-fA-F]+')
 
 
 def _typed_eq(a, b):
@@ -530,10 +533,10 @@ class ShellProduct:
                 fp, exp = base, 'an error message and no change (no such setting)'
             elif verdict == S.INVALID:
                 fp, exp = base + ':invalid-value-changed-state', 'an error message and no change (invalid value)'
-            elif unchanged:
-                fp, exp = base + ':valid-value-rejected', f'{name} = {outcomes[0].model.asdict()[S.resolve_name(name)[1]]!r}'
             else:
-                fp, exp = base + ':wrong-state', f'exactly {name} changed to {outcomes[0].model.asdict()[S.resolve_name(name)[1]]!r}'
+                fp = base + ':valid-value-misapplied'
+                exp = (f'exactly {name} changed to {outcomes[0].model.asdict()[S.resolve_name(name)[1]]!r}'
+                       + (' (nothing changed)' if unchanged else ''))
             raise Desync(fp, f'{line!r} in state {self.model.asdict()}: expected {exp}; {why}; stdout={out!r} stderr={err!r}'
                          + self._also(problems))
         # several admissible outcomes may fit the state (value equal to the current one): prefer the one
@@ -596,8 +599,8 @@ class ShellProduct:
             problems.append((f'error:no-message:{why}', f'{line!r} ({why}) printed no error message'))
         self.info['reported_by'] = 'exception' if exc is not None else 'message'
         if forbidden is not None:
-            text = STATEMENTS[forbidden][1]
-            exp = world().render(text, self.model)
+            kind, text = forbidden
+            exp = world().printed(text) if kind == 'print' else world().render(text, self.model)
             if isinstance(exp, str) and exp in out:
                 problems.append((f'dispatch:executed:{why}', f'{line!r} printed the result of the statement {text!r}'))
         return None
@@ -698,7 +701,8 @@ class ShellProduct:
         def diagnose(observed):
             fields = self._as_if(text, observed)
             if fields:
-                return fpbase + ':as-if:' + ','.join(fields), f' (it is what settings {fields} with other values would give)'
+                return (f'render:{self.model.format}:as-if:' + ','.join(fields),
+                        f' (it is what settings {fields} with other values would give)')
             return fpbase + ':mismatch', ''
         self._compare(line, kind, [text], out, err, exc, problems, fpbase, diagnose)
         return None
@@ -726,7 +730,7 @@ class ShellProduct:
             for t in texts:
                 fields = self._as_if(t, observed)
                 if fields:
-                    return (f'run:{self.model.format}:as-if:' + ','.join(fields),
+                    return (f'render:{self.model.format}:as-if:' + ','.join(fields),
                             f' (it is what settings {fields} with other values would give)')
             return f'run:{reading}:mismatch', ''
         kind = 'balances' if texts[0].startswith('BALANCES') else 'select'
@@ -773,10 +777,16 @@ def observe(acc, p, ev, problems):
     info = p.info
     out, err, exc = info.get('out', ''), info.get('err', ''), info.get('exc')
     acc.count('events:' + ev[0])
+    # normalised for counting only: the once-per-process deprecation warning and object addresses in the
+    # .explain dump would make the number of distinct outcomes depend on the shard-to-process assignment
+    err = ShellProduct.strip_warnings(err)
+    if ev[0] == 'explain':
+        out = _ADDRESS.sub('0x?', out)
     if out or err or exc is not None:
         acc.add('outcomes', (ev[1], out, err, type(exc).__name__ if exc is not None else None))
     if ev[0] == 'assign':
-        acc.count('assign:' + info.get('verdict', '?') + (':accepted' if info.get('accepted') else ':rejected'))
+        acc.count('assign:' + info.get('verdict', '?') + (':desynchronised' if 'accepted' not in info else
+                                                          ':accepted' if info['accepted'] else ':rejected'))
     if ev[0] == 'error':
         acc.count('error-reported-by:' + info.get('reported_by', '?'))
     if ev[0] in ('stmt', 'print', 'run'):
@@ -940,19 +950,28 @@ def cli_case(case, tmpdir):
     # reference: API on the same file + renderer under default settings with format / numberify selected
     conn = cli_reference(path)
     cursor = conn.execute(query)
-    desc, rows = cursor.description, cursor.fetchall()
+    desc0, rows0 = cursor.description, cursor.fetchall()
     dcontext = conn.options['dcontext']
-    model = S.SettingsModel.from_observed(vars(shell.Settings()))
-    model = model.replace('format', case['format']).replace('numberify', case['numberify'])
-    plan = S.render_plan(model)
-    if plan['numberify']:
-        desc, rows = numberify_results(desc, rows, dcontext.build())
-    if not rows and plan['empty_marker'] is not None:
-        expected = plan['empty_marker']
-    else:
+    defaults = S.SettingsModel.from_observed(vars(shell.Settings()))
+
+    def reference(fmt, num):
+        plan = S.render_plan(defaults.replace('format', fmt).replace('numberify', num))
+        desc, rows = numberify_results(desc0, rows0, dcontext.build()) if plan['numberify'] else (desc0, rows0)
+        if not rows and plan['empty_marker'] is not None:
+            return plan['empty_marker']
         f = io.StringIO()
         (render_text if plan['format'] == 'text' else render_csv)(desc, rows, dcontext, f, **plan['options'])
-        expected = f.getvalue()
+        return f.getvalue()
+    expected = reference(case['format'], case['numberify'])
+
+    def locus(observed):
+        """Name the option that was not applied, if the observed text is the reference of another choice."""
+        other_fmt = 'csv' if case['format'] == 'text' else 'text'
+        if observed == reference(case['format'], not case['numberify']) != expected:
+            return 'cli:-m-not-applied'
+        if observed == reference(other_fmt, case['numberify']) != expected:
+            return 'cli:-f-not-applied'
+        return f'cli:result:{case["format"]}:{"rows" if rows0 else "empty"}'
     messages = [e.message for e in conn.errors]
     if (case['ledger'] == 'errors') != bool(messages):
         raise AssertionError(f'ledger {case["ledger"]} has errors {messages}')
@@ -974,7 +993,6 @@ def cli_case(case, tmpdir):
         problems.append(('cli:exit', f'{label} exited with status {result.exit_code}; stderr={stderr!r}'))
         return problems, info
     info['result_text'] = expected
-    locus = f'cli:{"-m:" if case["numberify"] else ""}-f={case["format"]}'
     if case['to_file']:
         try:
             with open(outpath, newline='') as f:
@@ -982,7 +1000,7 @@ def cli_case(case, tmpdir):
         except FileNotFoundError:
             content = None
         if content != expected:
-            problems.append(('cli:-o:file-content' if content is None or stdout == expected else locus,
+            problems.append(('cli:-o:file-content' if content is None or stdout == expected else locus(content),
                              f'{label}: the output file holds {content!r}, expected {expected!r}'))
         else:
             info['result_in_file'] = 1
@@ -990,7 +1008,7 @@ def cli_case(case, tmpdir):
             problems.append(('cli:-o:result-on-stdout', f'{label}: the result was (also) written to stdout: {stdout!r}'))
     else:
         if stdout != expected:
-            problems.append((locus, f'{label}: stdout {stdout!r}, expected {expected!r}'))
+            problems.append((locus(stdout), f'{label}: stdout {stdout!r}, expected {expected!r}'))
         else:
             info['result_on_stdout'] = 1
     everything = stdout + stderr
@@ -1049,6 +1067,9 @@ def run(ctx):
             w.result(t)
     for t in list(NAMED_PLAIN.values()) + list(NAMED_OVERRIDDEN.values()):
         w.result(t)
+    for ev in cheap_events(seed):
+        if ev[0] == 'error' and ev[3] is not None:
+            w.printed(ev[3][1]) if ev[3][0] == 'print' else w.result(ev[3][1])
     null_cells = sum(1 for k, t in STATEMENTS if k != 'print' for r in w.result(t)[0][1] for v in r if v is None)
     inv_cols = sum(1 for k, t in STATEMENTS if k != 'print' for c in w.result(t)[0][0]
                    if c.datatype.__name__ in ('Inventory', 'Position', 'Amount'))
